@@ -1322,10 +1322,25 @@ func (m *Machine) rangeIter(x Value, t types.Type) iter {
 }
 
 // orderKeys chooses the iteration order of a map range. By default the stored
-// (sorted/insertion) order; in all-orders mode every permutation of up to 4 keys.
+// (sorted/insertion) order; in all-orders mode every permutation of up to 4 keys, and
+// every rotation in both directions of larger key sets.
 func (m *Machine) orderKeys(keys []Value) []Value {
-	if !m.AllOrders || len(keys) < 2 || len(keys) > 4 {
+	if !m.AllOrders || len(keys) < 2 {
 		return keys
+	}
+	if len(keys) > 4 {
+		// larger maps: every rotation in both directions (each key comes first and last once)
+		n := len(keys)
+		k := m.ChooseN(2*n, "map-order-rotation")
+		out := make([]Value, 0, n)
+		for i := 0; i < n; i++ {
+			if k < n {
+				out = append(out, keys[(k+i)%n])
+			} else {
+				out = append(out, keys[((k-n)-i+2*n)%n])
+			}
+		}
+		return out
 	}
 	rest := append([]Value(nil), keys...)
 	var out []Value
